@@ -52,7 +52,9 @@ func HandleObjectValues(data []byte, handler ObjectValueHandler, buffer *Buffer)
 		p, _, err = handleObjectValues(data, handler, nil)
 		return p, err
 	}
+	verifStack(0, 0, buffer.stackBuf)
 	p, buffer.stackBuf, err = handleObjectValues(data, handler, buffer.stackBuf)
+	verifStack(5, 0, buffer.stackBuf)
 	return p, err
 }
 
@@ -65,7 +67,9 @@ func HandleArrayValues(data []byte, handler ArrayValueHandler, buffer *Buffer) (
 		p, _, err = handleArrayValues(data, handler, nil)
 		return p, err
 	}
+	verifStack(0, 0, buffer.stackBuf)
 	p, buffer.stackBuf, err = handleArrayValues(data, handler, buffer.stackBuf)
+	verifStack(5, 0, buffer.stackBuf)
 	return p, err
 }
 
@@ -76,7 +80,9 @@ func SkipValue(data []byte, buffer *Buffer) (p int, err error) {
 		p, _, err = skipValue(data, nil)
 		return p, err
 	}
+	verifStack(0, 0, buffer.stackBuf)
 	p, buffer.stackBuf, err = skipValue(data, buffer.stackBuf)
+	verifStack(5, 0, buffer.stackBuf)
 	return p, err
 }
 
@@ -105,7 +111,9 @@ func SkipValueFast(data []byte, buffer *Buffer) (p int, err error) {
 		p, _, err = skipValueFast(data, nil)
 		return p, err
 	}
+	verifStack(0, 0, buffer.stackBuf)
 	p, buffer.stackBuf, err = skipValueFast(data, buffer.stackBuf)
+	verifStack(5, 0, buffer.stackBuf)
 	return p, err
 }
 
@@ -123,7 +131,9 @@ func Valid(data []byte, buffer *Buffer) bool {
 	if buffer == nil {
 		p, _, err = skipValue(data, nil)
 	} else {
+		verifStack(0, 0, buffer.stackBuf)
 		p, buffer.stackBuf, err = skipValue(data, buffer.stackBuf)
+		verifStack(5, 0, buffer.stackBuf)
 	}
 
 	if err != nil {
